@@ -16,7 +16,7 @@ from vlib import Infra
 def tcfg(name):
     p = os.path.join(vlib.BUILD, name + ".cfg")
     with open(p, "w") as f:
-        f.write("SPECIFICATION TSpec\nCONSTANTS\n  Threads = {1,2,3,4,5,6,7,8,9}\n  NBlk = 400\n  Cap = 224\n  MaxOps = 0\n  DrainOnExit = TRUE\n"
+        f.write("SPECIFICATION TSpec\nCONSTANTS\n  Threads = {1,2,3,4,5,6,7,8,9}\n  NBlk = 400\n  Cap = 224\n  MaxOps = 0\n  NRes = 16\n  SharedScratch = FALSE\n  DrainOnExit = TRUE\n"
                 "INVARIANTS RaceFree HeapSoundT\nPOSTCONDITION Accepted\nCHECK_DEADLOCK FALSE\n")
     return p
 
@@ -28,6 +28,17 @@ def run(v, tier, seed, replay):
         if r.violated:
             raise Infra("Threads violates %s (model defect)" % r.violated)
         v.add("states", r.distinct); v.add("transitions", r.generated)
+    for cfg in ["Threads_scratch.cfg"]:
+        r = vlib.tlc("Threads", cfg, timeout=900)
+        vlib.tlc_ok(r, cfg)
+        if r.violated:
+            raise Infra("Threads (scratch objects) violates %s (model defect)" % r.violated)
+        v.add("states", r.distinct); v.add("transitions", r.generated)
+    rs = vlib.tlc("Threads", "Threads_sharedscratch.cfg", timeout=600)
+    vlib.tlc_ok(rs, "Threads with one shared scratch object")
+    if rs.violated != "RaceFree":
+        raise Infra("vacuity: a scratch object shared by all threads no longer violates RaceFree in the specification")
+    v.cov["design_counterexample_shared_scratch_object"] = "TLC: RaceFree violated at depth %d" % rs.depth
     r0 = vlib.tlc("Threads", "Threads_ascoded.cfg", timeout=600)
     vlib.tlc_ok(r0, "Threads as coded")
     v.cov["design_counterexample_without_drain_at_thread_exit"] = ("TLC: %s violated at depth %d" % (r0.violated, r0.depth)) if r0.violated else "NOT FOUND"
@@ -83,9 +94,10 @@ def run(v, tier, seed, replay):
             if ok:
                 ntr += 1; nev += len(ev)
             else:
-                k = max(0, r.depth - 1)
+                k = max(0, r.depth - (2 if r.violated else 1))      # an invariant fails in the state AFTER the event; a missing step AT the event
                 e = json.loads(ev[k]) if k < len(ev) else {}
-                key = "threads/exit/left-in-cache" if e.get("e") == "Exit" else "threads/heap/%s" % e.get("e", "?")
+                key = ("threads/exit/left-in-cache" if e.get("e") == "Exit" else
+                       "threads/race/%s" % e.get("e", "?") if r.violated == "RaceFree" else "threads/heap/%s" % e.get("e", "?"))
                 v.violation(key, "n=%d seed=%d event %d not explained by Threads: %s (%s)" % (n, sd, k, json.dumps(e)[:300], r.violated or "no matching step"), {"args": args, "event": e})
             if len(v.cov["samples"]) < 2:
                 v.sample({"threads": n, "rounds": rounds, "events": len(ev), "first_events": [json.loads(x) for x in ev[:6]], "results": res[:3]})
